@@ -10,6 +10,7 @@ import sub_checks
 import gen_checks
 import conv_checks
 import err_checks
+import alias_checks
 
 CORE_A = ["Model/Base.v", "Model/Dispatch.v", "Model/Routing.v", "Model/DispLane.v", "Gen/DispatchSrc.v", "Gen/ConvSrc.v",
           "Proofs/DispatchProofs.v", "Proofs/RoutingProofs.v", "Proofs/SrcObligations.v"]
@@ -123,6 +124,13 @@ REGISTRY = {
                     "positions of any depth: a leaf its type cannot accept (int/float/bytes/enum/literal positions), a required key removed, an extra key (when forbid_extra_keys is on); "
                     "faults never sit inside a component another fault replaces or removes; k = 0 is the control (must be accepted); non-trivial = every faulted payload; "
                     "distinct = sha1 of (world, type, payload, forbid)"},
+    "C11": {"props_file": "Props/C11.v", "files": ["Model/Base.v", "Model/Alias.v", "Gen/AliasSrc.v", "Proofs/ClassSound.v", "Proofs/AliasProofs.v", "Props/C11.v"],
+            "run": (lambda v, b, tier: alias_checks.check_c11(v, 60 * SIZES[tier])), "t1_sections": ["alias"],
+            "rule": "worlds as in the CONV lane plus TypedDicts; per world 3 types x 2 values x 3 converter configurations: unstructure the value, then structure the result, "
+                    "a mutated copy and a junk object; plus per world a tagged-union battery (2-3 members x forbid on/off x default or not x validation mode; member instances; "
+                    "payloads with known / unknown / missing tag, extra keys, reordered keys) and a battery of TypedDict hooks built with renames / omissions and forbid_extra_keys "
+                    "(valid payloads, extra keys, missing keys, bad values, non-mappings); every call is bracketed by a deep identity snapshot of the argument; non-trivial = every call; "
+                    "distinct = sha1 of (operation, configuration, type, input)"},
     "C02": {"props_file": "Props/C02.v", "files": CORE_CONV + ["Proofs/ConvSound.v", "Proofs/ConvCfg.v", "Props/C02.v"], "run": _conv("C02", 40), "rule": RULE_CONV, "t1_sections": ["gen"]},
     "C04": {"props_file": "Props/C04.v", "files": CORE_TPL + ["Props/C04.v"], "run": _c04, "rule": RULE_TPL, "t1_sections": ["gen"]},
     "C09": {"props_file": "Props/C09.v", "files": CORE_TPL + ["Proofs/UnstructProofs.v", "Props/C09.v"], "run": _c09, "rule": RULE_TPL, "t1_sections": ["gen"]},
